@@ -24,6 +24,7 @@ def cases(tier, seed):
             for (din, dout, eqk) in ((1, 1, 0), (2, 1, 1), (1, 3, 2), (3, 2, 1)):
                 out.append(dict(kind="obs", n=n, b=b, din=din, dout=dout, eqk=eqk, seed=k, draws=d))
             out.append(dict(kind="obs", n=n, b=b, din=1, dout=1, eqk=1, flat_in=True, flat_val=True, flat_eq=True, seed=k, draws=d))
+            out.append(dict(kind="obs", n=n, b=b, din=2, dout=1, eqk=2 + n % 2, flat_eq=True, seed=k, draws=d))      # several observed parameters given as 1-D arrays
             out.append(dict(kind="obs", n=n, b=b, din=2, dout=1, eqk=1, shard=True, seed=k, draws=d))     # stored with a sharding constraint
             for ks in keysets if (tier != "quick" or n <= 4) else keysets[:3]:
                 out.append(dict(kind="param", n=n, b=b, keys=ks, seed=k, draws=d))
